@@ -178,6 +178,8 @@ def tasks_for(keys, modes, contracts_reg):
     for k in keys:
         for case in contracts_reg[k].cases:
             for m in modes:
+                if getattr(case, "modes", None) and m not in case.modes:
+                    continue
                 ts.append({"key": k, "case": case.name, "mode": m})
                 for rg in contracts_reg[k].regions:
                     if re.fullmatch(rg.get("cases", ".*"), case.name):
